@@ -58,6 +58,9 @@ func init() {
 		Old: "\tphpMinifier := htmlMinifier\n", New: "",
 		Old2: "\txmlMinifier := xml.Minifier{}\n", New2: "\txmlMinifier := xml.Minifier{}\n\tphpMinifier := htmlMinifier\n",
 		Rule: "R16.2", Construct: "copy phpMinifier"})
+	mutant(&Mutant{Name: "c16-svg-lookahead-swallows-comments", Property: "C16", File: "svg/svg.go",
+		Old: "\t\t\tif next.TokenType == xml.TextToken && parse.IsAllWhitespace(next.Data) {\n\t\t\t\tnext = tb.Peek(1)\n\t\t\t\tskipExtra = true\n\t\t\t}", New: "\t\t\tif next.TokenType == xml.CommentToken || next.TokenType == xml.TextToken && parse.IsAllWhitespace(next.Data) {\n\t\t\t\tnext = tb.Peek(1)\n\t\t\t\tskipExtra = true\n\t\t\t}",
+		Rule: "R16.5", Construct: "peeked comments"})
 	mutant(&Mutant{Name: "c16-xml-whitespace-trim", Property: "C16", File: "xml/xml.go",
 		Old: "\t\t\t\t\t\tif !o.KeepWhitespace {\n\t\t\t\t\t\t\tt.Data = t.Data[:len(t.Data)-1]\n\t\t\t\t\t\t\tomitSpace = false\n\t\t\t\t\t\t}", New: "\t\t\t\t\t\tt.Data = t.Data[:len(t.Data)-1]\n\t\t\t\t\t\tomitSpace = false",
 		Rule: "R16.3", Construct: "xml.KeepWhitespace"})
@@ -68,6 +71,55 @@ func runC16(c *Ctx) {
 	c.r162()
 	c.r163()
 	c.r164()
+	c.r165()
+}
+
+// R16.5: with KeepComments no comment token is consumed without being written.
+func (c *Ctx) r165() {
+	const rule = "R16.5"
+	c.R.Rule(rule, "svg.(*Minifier).Minify under the stipulation o.KeepComments: apart from the CommentToken case of the token switch (which writes the comment, R16.3) no token that a test has identified as a comment (true outcome of `X.TokenType == xml.CommentToken` on a peeked token) can reach a `tb.Shift()` whose result is discarded — a look-ahead that swallows comments together with white space drops them although the option is set (`<g><!-- layer --></g>` → `<g/>`)")
+	pk := c.pkg(rule, "svg")
+	if pk == nil {
+		return
+	}
+	info := pk.TypesInfo
+	fd := c.fn(rule, pk, "Minifier.Minify")
+	if fd == nil {
+		return
+	}
+	g := c.graph(pk, fd)
+	discards := func(y *flow.Node) bool {
+		es, ok := y.Stmt.(*ast.ExprStmt)
+		if !ok || y.Kind != flow.KStmt {
+			return false
+		}
+		call, isCall := ast.Unparen(es.X).(*ast.CallExpr)
+		return isCall && strings.HasSuffix(calleeName(info, call), "TokenBuffer).Shift")
+	}
+	n, nd := 0, 0
+	for _, y := range g.Nodes {
+		if discards(y) {
+			nd++
+		}
+	}
+	var bad []string
+	for _, y := range g.Nodes {
+		if y.Kind != flow.KTrue || y.Of == nil || y.Of.Kind != flow.KCond {
+			continue
+		}
+		be, ok := ast.Unparen(y.Of.Expr).(*ast.BinaryExpr)
+		if !ok || be.Op != token.EQL || !strings.HasSuffix(str(be.X), ".TokenType") || str(be.Y) != "xml.CommentToken" {
+			continue
+		}
+		if strings.HasPrefix(str(be.X), "t.") {
+			continue // the token being processed, not a peeked one
+		}
+		n++
+		if p := g.Path(flow.Search{From: []*flow.Node{y}, Goal: discards, Assume: map[string]bool{"o.KeepComments": true}, TrackFields: true}); p != nil {
+			bad = append(bad, "comment recognised at "+c.pos(y.Of.Expr)+" is shifted away: "+pathStr(c, g, p))
+		}
+	}
+	c.R.Check(len(bad) == 0, rule, "svg.Minifier.Minify/peeked comments are not swallowed when KeepComments", c.pos(fd), fmt.Sprintf("%d comment tests on peeked tokens, %d discarding shifts", n, nd), strings.Join(bad, "; "))
 }
 
 // R16.4: nested minification keeps the caller's options.
